@@ -1,4 +1,4 @@
-\* thorough: 2 nodes, 3 entries, asynchronous HWM updates (stale values), in-channel, <=3 leadership changes
+\* thorough: 2 nodes, 3 entries, asynchronous HWM updates (stale values), in-channel, <=4 leadership signals
 SPECIFICATION Spec
 CONSTANTS
   Node = {n1, n2}
@@ -7,7 +7,8 @@ CONSTANTS
   BatchSz = 2
   InCap = 2
   AsyncHWM = TRUE
-  MaxFlips = 3
+  SigCap = 2
+  MaxFlips = 4
   MaxLeaders = 1
   MaxRestarts = 0
   MaxSnaps = 0
@@ -20,7 +21,8 @@ CONSTANTS
   HWMAfterSendOK = TRUE
   PruneToHWMOnly = TRUE
   RewindCursor = TRUE
+  ParkedKeptUntilSent = TRUE
   RestartHWMBelowLowest = TRUE
   DropReapplied = TRUE
 SYMMETRY Sym
-INVARIANTS TypeOK Labelled NoSkip TenureOrder TakenStored KeysBounded
+INVARIANTS TypeOK Labelled NoSkip TenureOrder TakenStored KeysBounded LoopShape
